@@ -25,9 +25,9 @@ pub fn check_spec(id: &str) -> Option<CheckSpec> {
       property: id.into(),
       level: "exploration",
       lanes: vec![
-        lane("conc/all-flavours/faults", conc("all", |_| {}), 60_000, 1_500_000),
-        lane("conc/all-flavours/no-faults", conc("nofault", |p| p.faults = false), 30_000, 600_000),
-        lane("conc/sync-only", conc("sync", |p| { p.asyncness = 0; p.cancel = false; }), 30_000, 600_000),
+        lane("conc/all-flavours/faults", conc("all", |_| {}), 300_000, 9_000_000),
+        lane("conc/all-flavours/no-faults", conc("nofault", |p| p.faults = false), 150_000, 4_500_000),
+        lane("conc/sync-only", conc("sync", |p| { p.asyncness = 0; p.cancel = false; }), 150_000, 4_500_000),
       ],
       assumptions,
       notes: vec![],
@@ -36,8 +36,8 @@ pub fn check_spec(id: &str) -> Option<CheckSpec> {
       property: id.into(),
       level: "exploration",
       lanes: vec![
-        lane("conc/order/faults", conc("order", |p| { p.lifecycle = false; p.max_tokens_per_producer = 12; }), 60_000, 1_500_000),
-        lane("conc/order/no-faults", conc("order-nf", |p| { p.lifecycle = false; p.faults = false; p.max_tokens_per_producer = 12; }), 30_000, 600_000),
+        lane("conc/order/faults", conc("order", |p| { p.lifecycle = false; p.max_tokens_per_producer = 12; }), 300_000, 9_000_000),
+        lane("conc/order/no-faults", conc("order-nf", |p| { p.lifecycle = false; p.faults = false; p.max_tokens_per_producer = 12; }), 150_000, 4_500_000),
       ],
       assumptions,
       notes: vec![],
@@ -46,8 +46,8 @@ pub fn check_spec(id: &str) -> Option<CheckSpec> {
       property: id.into(),
       level: "exploration",
       lanes: vec![
-        lane("conc/bounded", conc("bounded", |p| { p.flavours = vec![Flavour::SpscBounded, Flavour::MpscBounded, Flavour::MpmcBounded, Flavour::SpscRendezvous, Flavour::MpscRendezvous, Flavour::MpmcRendezvous]; }), 60_000, 1_500_000),
-        lane("conc/bounded/no-faults", conc("bounded-nf", |p| { p.faults = false; p.flavours = vec![Flavour::SpscBounded, Flavour::MpscBounded, Flavour::MpmcBounded, Flavour::SpscRendezvous, Flavour::MpscRendezvous, Flavour::MpmcRendezvous]; }), 30_000, 600_000),
+        lane("conc/bounded", conc("bounded", |p| { p.flavours = vec![Flavour::SpscBounded, Flavour::MpscBounded, Flavour::MpmcBounded, Flavour::SpscRendezvous, Flavour::MpscRendezvous, Flavour::MpmcRendezvous]; }), 300_000, 9_000_000),
+        lane("conc/bounded/no-faults", conc("bounded-nf", |p| { p.faults = false; p.flavours = vec![Flavour::SpscBounded, Flavour::MpscBounded, Flavour::MpmcBounded, Flavour::SpscRendezvous, Flavour::MpscRendezvous, Flavour::MpmcRendezvous]; }), 150_000, 4_500_000),
       ],
       assumptions,
       notes: vec![],
@@ -56,8 +56,8 @@ pub fn check_spec(id: &str) -> Option<CheckSpec> {
       property: id.into(),
       level: "exploration",
       lanes: vec![
-        lane("conc/lifecycle", conc("lifecycle", |p| { p.hold_open_pct = 10; }), 60_000, 1_500_000),
-        lane("conc/lifecycle/no-faults", conc("lifecycle-nf", |p| { p.hold_open_pct = 10; p.faults = false; }), 30_000, 600_000),
+        lane("conc/lifecycle", conc("lifecycle", |p| { p.hold_open_pct = 10; }), 300_000, 9_000_000),
+        lane("conc/lifecycle/no-faults", conc("lifecycle-nf", |p| { p.hold_open_pct = 10; p.faults = false; }), 150_000, 4_500_000),
       ],
       assumptions,
       notes: vec![],
@@ -66,8 +66,8 @@ pub fn check_spec(id: &str) -> Option<CheckSpec> {
       property: id.into(),
       level: "exploration",
       lanes: vec![
-        lane("conc/sync/liveness", conc("sync-live", |p| { p.asyncness = 0; p.cancel = false; p.hold_open_pct = 60; }), 80_000, 2_000_000),
-        lane("conc/sync/liveness/no-faults", conc("sync-live-nf", |p| { p.asyncness = 0; p.cancel = false; p.hold_open_pct = 60; p.faults = false; }), 40_000, 800_000),
+        lane("conc/sync/liveness", conc("sync-live", |p| { p.asyncness = 0; p.cancel = false; p.hold_open_pct = 60; }), 400_000, 12_000_000),
+        lane("conc/sync/liveness/no-faults", conc("sync-live-nf", |p| { p.asyncness = 0; p.cancel = false; p.hold_open_pct = 60; p.faults = false; }), 200_000, 6_000_000),
       ],
       assumptions,
       notes: vec![],
@@ -76,8 +76,8 @@ pub fn check_spec(id: &str) -> Option<CheckSpec> {
       property: id.into(),
       level: "exploration",
       lanes: vec![
-        lane("conc/async/liveness", conc("async-live", |p| { p.asyncness = 1; p.timed = false; p.hold_open_pct = 60; }), 60_000, 1_500_000),
-        lane("conc/mixed/liveness", conc("mixed-live", |p| { p.asyncness = 2; p.hold_open_pct = 60; }), 60_000, 1_500_000),
+        lane("conc/async/liveness", conc("async-live", |p| { p.asyncness = 1; p.timed = false; p.hold_open_pct = 60; }), 300_000, 9_000_000),
+        lane("conc/mixed/liveness", conc("mixed-live", |p| { p.asyncness = 2; p.hold_open_pct = 60; }), 300_000, 9_000_000),
       ],
       assumptions,
       notes: vec![],
@@ -86,7 +86,7 @@ pub fn check_spec(id: &str) -> Option<CheckSpec> {
       property: id.into(),
       level: "exploration",
       lanes: vec![
-        lane("conc/teardown", conc("teardown", |_| {}), 60_000, 1_500_000),
+        lane("conc/teardown", conc("teardown", |_| {}), 300_000, 9_000_000),
       ],
       assumptions,
       notes: vec![],
